@@ -41,4 +41,30 @@ CLAIMS = {
              "per level, side branches, @skip at each level under both variable values, multi-operation documents, limits 0..5 and every "
              "operation filter: the errors name exactly the operations whose reference depth exceeds the limit and nothing is raised.",
         note="Not a proof (generator pipeline over selected_fields). Reference depth function written from the property statement."),
+    "C07": dict(
+        category="other", engine="pyvc+rtc",
+        technique="contract-based deductive verification of coerce_int (pyvc/z3) + run-time coercion contracts against a reference coercion on enumerated types x values",
+        text="coerce_int proved for int / bool / float / None inputs: accepts exactly the integral values of [-2^31, 2^31-1], returns them unchanged, raises only "
+             "ValueError. Bounded: coerce_value / value_from_ast / coerce_argument_values and the keyword arguments seen by resolvers agree with a "
+             "reference transcription of the specification's input coercion over 9 named types x 7 wrapper shapes x value grids, on the variable "
+             "and the literal route; rejected inputs never reach a resolver; per-type argument defaults on abstract-type selections.",
+        note="Trusted: vf/ref_coerce.py (specification transcription). Floats are modelled as class + real value. str inputs of coerce_int and all "
+             "recursive coercion functions are bounded only. Cross-kind scalar leniency (true for Int, 1 for String) is outside the property."),
+    "C13": dict(
+        category="other", engine="pyvc+rtc",
+        technique="contract-based deductive verification of Schema.is_subtype (pyvc/z3, structural induction + lemma) + path-wise cache-invalidation obligations + violation injection",
+        text="Schema.is_subtype proved equal to the specification's covariance relation for all type expressions (reflexivity lemma by structural "
+             "induction); every normal-return path of register_resolver / register_default_resolver / register_subscription that writes a resolver "
+             "resets the memoised verdict (syntactic-path obligations over the real source). Bounded: valid schemas accepted, 33 labelled violations "
+             "(single and multiple) rejected with all errors reported, definition-order independence, names, re-validation histories.",
+        note="Trusted: spec/typealgebra.valid_impl_type; possible-type membership uninterpreted in the proof. SchemaValidator itself is bounded only."),
+    "C20": dict(
+        category="other", engine="pyvc+rtc",
+        technique="contract-based deductive verification of the safe-type-change predicates (pyvc/z3, induction through own contracts) + run-time contracts on elementary edits",
+        text="_is_safe_input_type_change / _is_safe_output_type_change proved sound ('safe' implies at least as permissive / strict) and reflexive "
+             "for all type expressions, by induction through their own contracts. Bounded: 50+ labelled elementary edits in both directions are "
+             "reported with a change naming the element, equal schemas report nothing, no BREAKING change implies 35 client operations stay valid, "
+             "definition-order and hash-seed independence.",
+        note="Trusted: spec/typealgebra in_ok/out_ok. Known findings: output list items compared with the input rule (pinned by tests); safe retypes "
+             "are not reported at all."),
 }
